@@ -33,17 +33,18 @@ func init() {
 				n, h, e = 4000, 720, 8000
 			}
 			return []runner.Phase{
+				{Name: "close-at-wake", Variant: "race", Cases: n / 10, Run: closeAtWake, CaseTimeout: 60 * time.Second, Required: []string{"close_at_wake_cases", "close_reached_stop_while_parked"}},
 				{Name: "handshake-faults", Variant: "race", Cases: h, Run: c06handshake, CaseTimeout: 40 * time.Second, Required: []string{"handshake_faults"}},
 				{Name: "write-offsets", Variant: "plain", Cases: e, Run: c06offsets, CaseTimeout: 40 * time.Second, Required: []string{"cuts_injected"}},
 				{Name: "near-full", Variant: "plain", Cases: n / 20, Shards: 4, Run: c06nearfull, CaseTimeout: 120 * time.Second, Required: []string{"nearfull_build_failures"}},
-				{Name: "scenarios", Variant: "race", Cases: n, Run: c06case, CaseTimeout: 60 * time.Second, Required: []string{"closer_scenarios", "never_answered", "frame_build_failures", "no_streams_outcomes", "conservation_checks", "stream_starts"}},
+				{Name: "scenarios", Variant: "race", Cases: n, Run: c06case, CaseTimeout: 60 * time.Second, Required: []string{"closer_scenarios", "never_answered", "frame_build_failures", "no_streams_outcomes", "conservation_checks", "stream_starts", "timeout_limit_scenarios"}},
 			}
 		},
 	})
 }
 
 func c06report(c *runner.Ctx, ec *echoCfg, res *echoResult) {
-	wit := map[string]interface{}{"scenario": echoKey(ec), "outcomes": res.outcomes, "seed": ec.seed, "closer_after": ec.closeSessionAfter, "cut_at": ec.writeCutAt}
+	wit := map[string]interface{}{"scenario": echoKey(ec), "outcomes": res.outcomes, "seed": ec.seed, "closer_after": ec.closeSessionAfter, "cut_at": ec.writeCutAt, "timeout_limit": ec.timeoutLimit}
 	for k, n := range res.outcomes {
 		c.SetAdd("outcomes", k)
 		if strings.HasPrefix(k, "other:") {
@@ -63,7 +64,7 @@ func c06report(c *runner.Ctx, ec *echoCfg, res *echoResult) {
 	for _, m := range res.mismatches {
 		c.Violation(fmt.Sprintf("C06:wrong-response:v%d", ec.version), "a call that ended without error does not carry its own response: "+m, wit)
 	}
-	faulted := ec.writeCutAt >= 0 || ec.nodeCloseAfter >= 0 || ec.closeSessionAfter >= 0
+	faulted := ec.writeCutAt >= 0 || ec.nodeCloseAfter >= 0 || ec.closeSessionAfter >= 0 || ec.stallAt > 0
 	// ("no connection available" is a legitimate immediate refusal when every stream id of the only connection is taken)
 	// The driver may also close a connection on its own (six failed heartbeats, TimeoutLimit), which depends on
 	// timing and load; what can be decided is that a connection-closed outcome needs a connection that was closed.
@@ -115,6 +116,15 @@ func c06cfg(c *runner.Ctx, i int) *echoCfg {
 	}
 	if ec.timeout > 40*time.Millisecond {
 		ec.timeout = 40 * time.Millisecond
+	}
+	if i%8 == 4 {
+		// the (deprecated but honoured) package-level TimeoutLimit: after that many timeouts the driver closes the
+		// connection from the goroutine of the request that timed out
+		ec.timeoutLimit = int64(1 + r.Intn(6))
+		if ec.pNever < 10 {
+			ec.pNever = 10 + r.Intn(30)
+		}
+		c.Add("timeout_limit_scenarios", 1)
 	}
 	switch i % 4 {
 	case 1:
